@@ -55,7 +55,9 @@ var (
 		"locals", "peer", "peers_v3", "local_", "schema_tables", "size_estimates", "t", "users", `"local "`, "loca", "available_ranges"}
 	c09Selectors = []string{"*", "key", "key, rpc_address", "count(*)", "peer, data_center AS dc", "now()", "JSON *", "DISTINCT key", "writetime(key)", "host_id, tokens", "*, key", "a.b", "\"Quoted\", x",
 		// selector text the proxy's lexer has no token for: the table decides, not the select clause
-		"key % 2", "@key", "é", "key ^ 2, *", "a | b", "key # 1", "~key", "100%"}
+		"key % 2", "@key", "é", "key ^ 2, *", "a | b", "key # 1", "~key", "100%",
+		// comment markers inside quoted identifiers are part of the identifier
+		"key AS \"k--1\"", "key AS \"a/*b\", rpc_address", "\"//x\"", "key AS \"*/\"", "\"--\".\"/*\""}
 	c09Tails = []string{"", " LIMIT 10", " ALLOW FILTERING", " ORDER BY k DESC", " LIMIT 1 ALLOW FILTERING", " AND peer = '127.0.0.1'", " AND x IN (1, 2)", " PER PARTITION LIMIT 2"}
 )
 
